@@ -6,9 +6,11 @@ import (
 	"math"
 	"testing"
 
+	"github.com/DataDog/sketches-go/ddsketch"
 	enc "github.com/DataDog/sketches-go/ddsketch/encoding"
 	"github.com/DataDog/sketches-go/ddsketch/mapping"
 	"github.com/DataDog/sketches-go/ddsketch/pb/sketchpb"
+	"github.com/DataDog/sketches-go/ddsketch/store"
 	"google.golang.org/protobuf/proto"
 	"pgregory.net/rapid"
 	"verifharness/gen"
@@ -19,7 +21,7 @@ import (
 
 func init() {
 	stats.Rule("C03", "rapid cases: one mapping per case (kind in {log, linear, cubic}; built from alpha in [1e-6,0.99], or from (gamma, offset) with the accuracy in the same range and offset in {0, default, +-10, +-1e6, +-2^30, fractional}), ~70 probe values in [MinIndexableValue, MaxIndexableValue]: LowerBound(i) +- 0..4 ulps for i uniform over the index range and for the 10 lowest/highest indexes, powers of two +- ulps, both range ends and <= 4 ulps inward, log-uniform fill; plus ordered pairs (adjacent floats, few ulps apart, adjacent bins, far apart) for monotonicity. Checked: |Value(Index(v))-v| <= (alpha+slack) v, index in int32, LowerBound(i) <= v <= LowerBound(i+1) up to slack, Index non-decreasing, RelativeAccuracy equals the configured alpha. Non-trivial: the case contains a value within 4 ulps of a bin edge, binade edge or range end (always by construction, so distinctness by hash of the printed case is the binding part).")
-	stats.Rule("C19", "rapid cases: mappings as in C03; binary Encode/Decode, protobuf ToProto/Marshal/Unmarshal/FromProto and EncodeProto (streaming builder) round-trips must give a mapping that Equals the original both ways, re-serializes to identical bytes and agrees bitwise on Index/Value/LowerBound/RelativeAccuracy/Min/MaxIndexableValue at probe values and indexes; the independent parser (refdec) must read the same kind/gamma/offset from the bytes; Equals must be reflexive, symmetric, false across kinds and for same-kind mappings whose accuracy differs by >= 0.1% or whose offsets clearly differ, true for identical parameters. Non-trivial: non-default offset or a cross-kind / near-alpha pair; distinct by hash of the printed case.")
+	stats.Rule("C19", "rapid cases: mappings as in C03; binary Encode/Decode, protobuf ToProto/Marshal/Unmarshal/FromProto and EncodeProto (streaming builder) round-trips must give a mapping that Equals the original both ways, re-serializes to identical bytes and agrees bitwise on Index/Value/LowerBound/RelativeAccuracy/Min/MaxIndexableValue at probe values and indexes; the independent parser (refdec) must read the same kind/gamma/offset from the bytes; several mappings read in a row (binary, protobuf, sketch decoder; same base/offset across kinds included) must each come back as written; Equals must be reflexive, symmetric, false across kinds and for same-kind mappings whose accuracy differs by >= 0.1% or whose offsets clearly differ, true for identical parameters. Non-trivial: non-default offset or a cross-kind / near-alpha pair; distinct by hash of the printed case.")
 }
 
 func gammaFor(kind string, alpha float64) float64 {
@@ -459,7 +461,7 @@ func TestC19(t *testing.T) {
 			}
 		}
 		// clearly different offsets
-		for _, d := range []float64{1, -1, 0.5, 1e-6 * math.Max(1, math.Abs(offset))} {
+		for _, d := range []float64{1, -1, 0.5, 1e-6 * math.Max(1, math.Abs(offset)), -offset} {
 			o, err := gen.MapSpec{Kind: spec.Kind, Gamma: gamma, Offset: offset + d}.Build()
 			if err != nil || offset+d == offset {
 				continue
@@ -471,6 +473,60 @@ func TestC19(t *testing.T) {
 				cl.label("pair:offset")
 			}
 		}
+		// ---- reading several mappings in a row: each one comes back as itself, whatever was read just before
+		// (the readers are package-level functions; nothing may carry over from one call to the next)
+		pool := []mapping.IndexMapping{m}
+		for _, k := range gen.MapKinds {
+			if k != spec.Kind {
+				if o, err := (gen.MapSpec{Kind: k, Gamma: gamma, Offset: offset}).Build(); err == nil {
+					pool = append(pool, o) // same base and offset, other kind
+				}
+			}
+		}
+		if o, err := (gen.MapSpec{Kind: spec.Kind, Gamma: gamma, Offset: offset + 1}).Build(); err == nil {
+			pool = append(pool, o)
+		}
+		if o, err := (gen.MapSpec{Kind: spec.Kind, Gamma: gammaFor(spec.Kind, alpha*0.9), Offset: offset}).Build(); err == nil {
+			pool = append(pool, o)
+		}
+		nseq := rapid.IntRange(2, 6).Draw(t, "nseq")
+		for j := 0; j < nseq; j++ {
+			src := pool[rapid.IntRange(0, len(pool)-1).Draw(t, "seqpick")]
+			var got mapping.IndexMapping
+			via := rapid.SampledFrom([]string{"binary", "binary", "proto", "sketch"}).Draw(t, "seqvia")
+			switch via {
+			case "binary":
+				var eb []byte
+				src.Encode(&eb)
+				f, _ := enc.DecodeFlag(&eb)
+				got, err = mapping.Decode(&eb, f)
+			case "proto":
+				got, err = mapping.FromProto(src.ToProto())
+			default:
+				sk := ddsketch.NewDDSketch(src, store.NewSparseStore(), store.NewSparseStore())
+				_ = sk.Add(gen.ClampPos(src, 1))
+				var eb []byte
+				sk.Encode(&eb, false)
+				var dsk *ddsketch.DDSketch
+				dsk, err = ddsketch.DecodeDDSketch(eb, store.SparseStoreConstructor, nil)
+				if err == nil {
+					got = dsk.IndexMapping
+				}
+			}
+			if err != nil {
+				t.Fatalf("C19 %s: read #%d of a sequence (%s) failed: %v", spec, j, via, err)
+			}
+			var want, have []byte
+			src.Encode(&want)
+			got.Encode(&have)
+			if !bytes.Equal(want, have) || !src.Equals(got) || !got.Equals(src) {
+				t.Fatalf("C19 %s: read #%d of a sequence (%s): wrote % x, read back a mapping that encodes as % x (Equals=%v)", spec, j, via, want, have, src.Equals(got))
+			}
+			if d := sameBehaviour(src, got, values[:min(len(values), 8)], nil); d != "" {
+				t.Fatalf("C19 %s: read #%d of a sequence (%s) behaves differently from what was written: %s", spec, j, via, d)
+			}
+		}
+		cl.label("sequence-of-reads")
 		cl.done(nontrivial)
 	})
 }
